@@ -795,9 +795,9 @@ func c12FullHouse(r *vk.Rng, max int, mode c12Mode, burst string) *c12ConcCase {
 	for p := int8(0); p < waiting; p++ {
 		seq(c12Ev{c12Accept, p})
 	}
-	x1, x2 := int8(0), int8(max-1)     // receivers being served (x2 == x1 for max 1)
-	q1, j := int8(max), int8(n-1)      // first waiting receiver, the joined one
-	if int(q1) >= int(waiting) {       // max 3 with 5 receivers: one waiting receiver only
+	x1, x2 := int8(0), int8(max-1) // receivers being served (x2 == x1 for max 1)
+	q1, j := int8(max), int8(n-1)  // first waiting receiver, the joined one
+	if int(q1) >= int(waiting) {   // max 3 with 5 receivers: one waiting receiver only
 		q1 = waiting - 1
 	}
 	var st []c12Ev
@@ -848,13 +848,13 @@ var c12FullHouseBursts = []string{"return+accept", "fail+accept", "return+leave-
 
 type c12ConcStats struct {
 	Cases, Bursts, Overlapped, Truncated, ConcLeaves int64
-	ByFamily                                        map[string]int
-	ByProcs                                         map[string]int
-	ByOpt                                           map[string]int
-	MaxLive                                         [4]int32
-	Fails                                           map[string]*c12ConcResult
-	FailCount                                       map[string]int
-	FailByOpt                                       map[string]int
+	ByFamily                                         map[string]int
+	ByProcs                                          map[string]int
+	ByOpt                                            map[string]int
+	MaxLive                                          [4]int32
+	Fails                                            map[string]*c12ConcResult
+	FailCount                                        map[string]int
+	FailByOpt                                        map[string]int
 }
 
 // concurrent runs the concurrent-delivery part; n random histories plus reps x the directed family.
